@@ -96,6 +96,57 @@ PROPS = {
         "notes": ["F4 magnitudes in (MaxFloat32, MaxFloat32 + half ulp] are EITHER; integers wider than 53 bits into F4 may be rounded once or twice (both accepted)"],
         "assumptions": COMMON_ASSUMPTIONS,
     },
+    "C16": {
+        "level": "exploration",
+        "jobs": [{"test": "TestC16", "kind": "rapid", "quick": 300000, "thorough": 2000000}],
+        "floors": {"post-expansion": ("job:TestC16", 0.05), "message": ("job:TestC16", 0.15), "vars>=2:true": ("job:TestC16", 0.3)},
+        "rule": "rapid-generated item trees and messages with element variables, ASCII variables, item variables and ellipses anywhere (also trees obtained by expanding ellipses); "
+                "every sub-item is observed too. Oracle (relational, three observers): Variables() == names read off String() by an independent reader, in order, each once (ellipses as ...); "
+                "len(ToBytes()) > 0 iff that list is empty; Size() == number of printed elements (-1 for an ASCII variable) and equals the printed [n]; message ToBytes non-empty iff complete. "
+                "Non-trivial: >= 2 variables in >= 2 different nodes; distinct = FNV-64 of the case.",
+        "assumptions": COMMON_ASSUMPTIONS,
+    },
+    "C18": {
+        "level": "exploration",
+        "jobs": [{"test": "TestC18", "kind": "rapid", "quick": 150000, "thorough": 3000000}],
+        "floors": {"refused:session": ("job:TestC18", 0.05), "refused:wait": ("job:TestC18", 0.02), "wait:already-decided": ("job:TestC18", 0.1),
+                   "wait:resolves": ("job:TestC18", 0.1), "start:hsms": ("job:TestC18", 0.05)},
+        "rule": "rapid-generated messages (complete or not: optional/decided wait bit, with/without session, templates with variables) x histories of 1..6 producer calls "
+                "(SetWaitBit true/false on odd/even functions and on decided wait bits; SetSessionIDAndSystemBytes with session ids -2,-1,0,..,65535,65536,.. and 0..8 system bytes; "
+                "FillVariables with subsets of the bindings, repeated keys and unknown keys). Oracle: 8-field record model; after every call Name/StreamCode/FunctionCode/WaitBit/"
+                "Direction/SessionID/SystemBytes/Header/String/Variables/ToBytes of the result equal the model's (String against the directly constructed item, ToBytes against the "
+                "reference encoder), the receiver is unchanged, and the call panics iff the model says the result is invalid. Non-trivial: >= 2 calls of >= 2 different producers.",
+        "assumptions": COMMON_ASSUMPTIONS,
+    },
+    "C10": {
+        "level": "exploration",
+        "jobs": [
+            {"test": "TestC10Enum", "kind": "enum"},
+            {"test": "TestC10", "kind": "rapid", "quick": 60000, "thorough": 1200000},
+        ],
+        "exhaustive": {"quick": False, "thorough": False},
+        "floors": {"filled-n>0": ("job:TestC10", 0.3), "rounds=2": ("job:TestC10", 0.15)},
+        "rule": "(i) all list templates with <= 3 entries over {value item, item with variable, ASCII variable, item variable, ellipsis, nested list of <= 2 such entries} x every "
+                "assignment of {absent,0,1,2} to each ellipsis (thorough: all; quick: a seeded quarter), single ellipses named both ... and ...[0]; (ii) rapid-generated templates of depth <= 4, "
+                "<= 5 entries, counts 0..4, partial assignments, 1-3 successive rounds of fills (later rounds act on already expanded templates with suffixed names). Oracle: reference expander "
+                "written from the list documentation: equal String(), Size(), Variables() (ellipsis names modulo the documented renumbering), all names unique; then every variable of the result "
+                "is filled alone (value of the owning item's type / count 1 for an ellipsis) and compared with the model again. Non-trivial: >= 1 ellipsis filled with n >= 1 and >= 1 variable renamed.",
+        "exhaustive_note": {"quick": "a quarter of the exhaustive small-template set", "thorough": "exhaustive small-template set (depth <= 2)"},
+        "assumptions": COMMON_ASSUMPTIONS,
+    },
+    "C09": {
+        "level": "exploration",
+        "jobs": [{"test": "TestC09", "kind": "rapid", "quick": 250000, "thorough": 2000000}],
+        "floors": {"refused": ("job:TestC09", 0.03), "composition:steps=2": ("job:TestC09", 0.03), "composition:steps=3": ("job:TestC09", 0.03),
+                   "message": ("job:TestC09", 0.1), "hits>=1:true": ("job:TestC09", 0.5)},
+        "rule": "rapid-generated templates (all node kinds, nesting, variables anywhere, with and without unfilled ellipses) x assignments (hits, misses, unknown keys, Go argument "
+                "types by variant, values outside the item's domain / outside declared string bounds, item-variable values that are variable-free subtrees, subtrees with own variables, or "
+                "renames) x an ordered partition of the assignment into 1..4 fills; message level for a third of the cases. Oracle: reference substitution model: FillVariables result has the "
+                "same String/Variables/Size/ToBytes as the directly constructed item, panics iff direct construction is refused, unmentioned variables keep their order, the caller's map is "
+                "unchanged; for ellipsis-free templates and variable-free values every prefix of the partial fills equals direct construction and the fold equals the one-shot fill; completed "
+                "message bytes equal the reference encoding. Non-trivial: the assignment hits >= 1 variable and the template has >= 2 variables or depth >= 2.",
+        "assumptions": COMMON_ASSUMPTIONS,
+    },
     "C02": {
         "level": "exploration",
         "jobs": [
@@ -123,6 +174,28 @@ NOT_APPLICABLE = {}
 
 _PBT = "property-based testing (pgregory.net/rapid generators + shrinking)"
 MANIFEST_TEXT = {
+    "C09": {
+        "technique": "model-based " + _PBT + ": reference substitution model + metamorphic composition law (k partial fills == one fill with the union)",
+        "level_text": "Generated templates, assignments and partitions; result compared with direct construction through the factories on four observers, refusal equivalence, composition law.",
+        "level_note": "Trusted: substModel (template_test.go), the factories used for the directly constructed expectation (their own behaviour is C12's subject).",
+    },
+    "C10": {
+        "technique": "model-based " + _PBT + " + exhaustive enumeration of all small templates x repeat-count assignments against a reference ellipsis expander",
+        "level_text": "Reference-model differential: complete enumeration of small nested templates and count assignments (thorough) plus random deeper templates and multi-round fills; "
+                      "each generated name is then filled individually.",
+        "level_note": "Trusted: model.RefExpand (80 lines written from the ListNode documentation); a single remaining ellipsis may be called ... or ...[0].",
+    },
+    "C18": {
+        "technique": _PBT + ": model-based testing of producer-call histories against an 8-field record model (frame condition checked after every step)",
+        "level_text": "Generated histories of the three producers over generated messages; every observable of result and receiver is compared with the model after every step, "
+                      "refusals must coincide with the model's validity rules.",
+        "level_note": "Trusted: the record model in c18_test.go (about 60 lines), the reference encoder, factories used to build the expected item.",
+    },
+    "C16": {
+        "technique": _PBT + ": relational oracle between Variables(), String() (read by an independent reader), ToBytes() and Size() on every node of generated trees",
+        "level_text": "Exploration over generated templates (variables in any position, nested ellipses, post-expansion trees, messages); agreement of the observers is checked on every sub-item.",
+        "level_note": "Trusted: model.ReadItem; variable names are generated so that they cannot be mistaken for keywords.",
+    },
     "C12": {
         "technique": _PBT + ": boundary-directed argument generation for every factory / FillVariables, oracle from the exact mathematical value (math/big) via an independent reader of the printed form and the reference encoder",
         "level_text": "Exploration of the argument space of all factories and producers: every Go argument type at and around every range boundary of target and argument type, "
